@@ -81,10 +81,9 @@ impl HaltObs {
 }
 
 impl Observer for HaltObs {
-    fn on_start(&mut self, core: &mut Core, info: &StartInfo, vars: &mut HashMap<String, String>, _s: &mut HashMap<String, StateValue>, _e: &mut Env) -> Option<CommandResult> {
+    fn on_start(&mut self, core: &mut Core, info: &StartInfo, _vars: &mut HashMap<String, String>, _s: &mut HashMap<String, StateValue>, _e: &mut Env) -> Option<CommandResult> {
         if let Some(k) = info.d0_index {
             self.current_d0 = Some(k);
-            self.snapshots.borrow_mut().push(vars.iter().map(|(a, b)| (a.clone(), b.clone())).collect());
         }
         if let Some((k, pos)) = self.at.clone() {
             if self.current_d0 == Some(k) {
@@ -98,7 +97,36 @@ impl Observer for HaltObs {
         }
         None
     }
-    fn on_end(&mut self, core: &mut Core, info: &StartInfo, _r: &mut CommandResult, _v: &mut HashMap<String, String>, _s: &mut HashMap<String, StateValue>, _e: &mut Env) {
+    fn on_end(&mut self, core: &mut Core, info: &StartInfo, r: &mut CommandResult, v: &mut HashMap<String, String>, _s: &mut HashMap<String, StateValue>, _e: &mut Env) {
+        // the variables as they are once this instruction is complete: the command's own effects, then its
+        // output variable as the runner will set it, then (after an error) whatever the handler did.
+        // Command-less lines that follow (e.g. `x =`) are separate instructions and not part of it.
+        if info.depth == 0 {
+            let mut after: Vars = v.iter().map(|(a, b)| (a.clone(), b.clone())).collect();
+            if info.handler {
+                if let Some(last) = self.snapshots.borrow_mut().last_mut() {
+                    *last = after;
+                }
+            } else {
+                if let Some(o) = &info.out_var {
+                    match r {
+                        CommandResult::Continue(x) | CommandResult::GoTo(x, _) | CommandResult::Exit(x) => match x {
+                            Some(val) => {
+                                after.insert(o.clone(), val.clone());
+                            }
+                            None => {
+                                after.remove(o);
+                            }
+                        },
+                        CommandResult::Error(_) => {
+                            after.insert(o.clone(), "false".to_string());
+                        }
+                        CommandResult::Crash(_) => {}
+                    }
+                }
+                self.snapshots.borrow_mut().push(after);
+            }
+        }
         if let Some((k, Pos::After)) = self.at.clone() {
             if info.d0_index == Some(k) {
                 self.raise(core, "command:after");
@@ -162,11 +190,6 @@ fn normalise_run(r: RunResult) -> RunResult {
     for e in r.log.into_iter() {
         let e = match e {
             Event::Start { seq, depth, cmd, args, line, src_line, out, handler } => {
-                if depth == 0 && !handler {
-                    if let Some(sn) = snap_iter.next() {
-                        snaps.push(norm_vars(sn, &mut seen));
-                    }
-                }
                 let args = args.iter().map(|a| sim::norm_handles(a, &mut seen)).collect();
                 Event::Start { seq, depth, cmd, args, line, src_line, out, handler }
             }
@@ -175,6 +198,10 @@ fn normalise_run(r: RunResult) -> RunResult {
             other => other,
         };
         log.push(e);
+    }
+    for sn in snap_iter.by_ref() {
+        // (taken after the instructions' End events; by then every handle they mention has appeared in the log)
+        snaps.push(norm_vars(sn, &mut seen));
     }
     let end = match r.end {
         Ok(v) => Ok(norm_vars(&v, &mut seen)),
@@ -261,12 +288,20 @@ fn check_prefix(dry: &RunResult, dry_sigs: &[Sig], halted: &RunResult, k: u64, l
         // the in-flight instruction was the dry run's last one: whatever ended the dry run ends this one too,
         // unless the dry run went on to fail at an instruction that never starts (unknown command / label)
         match (&dry.end, &halted.end) {
-            (Ok(a), Ok(b)) => {
-                if a != b {
-                    return Some(("variables-at-halt".to_string(), format!("{}: returned variables {:?} / unhalted run's {:?}", label, b, a)));
+            (d, Ok(b)) => {
+                // whatever follows instruction k in the unhalted run (command-less lines such as `x =`, or an
+                // instruction that never starts) is not executed once the flag is up
+                let want = match (dry.snapshots.get(k as usize), d) {
+                    (Some(s), _) => Some(s),
+                    (None, Ok(a)) => Some(a),
+                    (None, Err(_)) => None,
+                };
+                if let Some(w) = want {
+                    if w != b {
+                        return Some(("variables-at-halt".to_string(), format!("{}: returned variables {:?} / variables after instruction #{} in the unhalted run {:?}", label, b, k, w)));
+                    }
                 }
             }
-            (Err(_), Ok(_)) => {}
             (Err(a), Err(b)) => {
                 if a != b {
                     return Some(("halted-run-failed".to_string(), format!("{}: halted run failed with {} / unhalted with {}", label, b, a)));
@@ -278,7 +313,7 @@ fn check_prefix(dry: &RunResult, dry_sigs: &[Sig], halted: &RunResult, k: u64, l
         match &halted.end {
             Err(b) => return Some(("halted-run-failed".to_string(), format!("{}: halted run returned an error: {}", label, b))),
             Ok(vars) => {
-                if let Some(snap) = dry.snapshots.get((k + 1) as usize) {
+                if let Some(snap) = dry.snapshots.get(k as usize) {
                     if snap != vars {
                         return Some(("variables-at-halt".to_string(), format!("{}: returned variables {:?} / variables after instruction #{} in the unhalted run {:?}", label, vars, k, snap)));
                     }
